@@ -18,6 +18,8 @@ NAME_POOL = [
     "x''", 'var', 'level', 'node', 'bdd', 'x_y', 'x_y_z', 'a0b', 'a1b1',
     'Q', 'R', 'q0', 'q1', "q0'", "q1'", 'pc', "pc'", 'pc0', 'pc1',
 ]
+# documented identifiers that contain a dot (doc.md: `symbol == start | NUMERAL | DOT | PRIME`)
+DOTTED_POOL = ['a.b', 'x.y', 'mod.sig', 'u.v.w', "p.q'", 'n.1', 'top.en', '_r.s']
 # names that the lexer reserves and therefore are not usable as variables
 _RESERVED = {'ite', 'False', 'True', 'FALSE', 'TRUE', 'false', 'true'}
 NAME_POOL = [n for n in NAME_POOL if n not in _RESERVED]
